@@ -103,7 +103,7 @@ class Builder:
                 self.toks.append(['A', rng.choice(AROM)])
             else:
                 ann = rand_annotation(rng) if rng.random() < 0.5 else None
-                self.toks.append(['K', rng.choice(BRACKET_BODIES), ann])
+                self.toks.append(['K', rng.choice(BRACKET_BODIES), ann if ann != '' else None])
         self.natoms += 1
         self.budget -= 1
 
@@ -442,9 +442,13 @@ class C13(common.Prop):
             return out
         if case['kind'] == 'ring':
             from collections import defaultdict
-            it = rf.PeekIter(case['rest'])
-            _, tok, part, rings = rf.collect_ring_number(it, case['token'], case['nc'], defaultdict(list))
-            return {'rest': ''.join(list(it)), 'tok': tok, 'part': part, 'rings': [[k, list(v)] for k, v in rings.items()]}
+            try:
+                it = rf.PeekIter(case['rest'])
+                _, tok, part, rings = rf.collect_ring_number(it, case['token'], case['nc'], defaultdict(list))
+                return {'rest': ''.join(list(it)), 'tok': tok, 'part': part,
+                        'rings': [[k, list(v)] for k, v in rings.items()]}
+            except Exception as exc:
+                return {'exc': type(exc).__name__}
         if case['kind'] == 'split':
             saved = (rf.strip_bonding_descriptors, rf.read_fragment_smiles)
             seen = []
@@ -452,6 +456,8 @@ class C13(common.Prop):
             rf.read_fragment_smiles = lambda smiles_str, fragname, *a, **k: None
             try:
                 names = [name for name, _ in rf.fragment_iter(case['text'])]
+            except Exception as exc:
+                return {'exc': type(exc).__name__}
             finally:
                 rf.strip_bonding_descriptors, rf.read_fragment_smiles = saved
             return {'pairs': [[a, b] for a, b in zip(names, seen)]}
@@ -484,6 +490,10 @@ class C13(common.Prop):
         return '{| d_kind := %s; d_label := %s; d_sym := %s |}' % (lit.ch(d[0]), lit.s(d[1]), lit.opt(d[2], lambda x: BSYM[x]))
 
     def coq_case(self, case, impl):
+        if case['kind'] == 'ring' and 'exc' in impl:      # the model never returns an empty partial_str: a mismatch
+            return '(CRing %s %s %s ([], None, [], []))' % (lit.s(case['rest']), lit.ch(case['token']), lit.nat(case['nc']))
+        if case['kind'] == 'split' and 'exc' in impl:     # the model never returns an empty list: a mismatch
+            return '(CSplit %s [])' % lit.s(case['text'])
         if case['kind'] == 'ring':
             rings = lit.lst([lit.pair(lit.s(k), lit.lst([lit.nat(x) for x in v])) for k, v in impl['rings']])
             return '(CRing %s %s %s (%s, %s, %s, %s))' % (
@@ -494,10 +504,14 @@ class C13(common.Prop):
         try:
             text = lit.s(case['text'])
         except ValueError:
-            return '(CSplit [] [])'            # not printable ASCII: outside the model's alphabet, not a case
+            return '(CSplit [] [([], [])])'    # not printable ASCII: outside the model's alphabet, not a case
         fo = lit.lst([lit.pair(lit.s(p), lit.opt(r, lit.s)) for p, r in impl['fo']])
+        def bad_key(k):
+            return isinstance(k, bool) or not isinstance(k, int) or k < 0
         if 'exc' in impl:
             obs = '(OErr %s)' % lit.s(impl['exc'])
+        elif any(bad_key(k) for part in ('desc', 'ez', 'ann') for k, _ in impl[part]):
+            obs = '(OErr (S "result with a key that is not an atom index"))'
         else:
             obs = '(ORes (%s, %s, %s, %s))' % (
                 lit.s(impl['smile']),
